@@ -132,6 +132,10 @@ pub trait Part: Sync {
     fn exhaustive(&self) -> bool {
         true
     }
+    /// extra evidence (e.g. model-checker statistics) and machinery errors found while producing it
+    fn extra(&self, _cfg: &Cfg) -> (Map<String, Value>, Vec<String>) {
+        (Map::new(), vec![])
+    }
 }
 
 #[derive(Default, Serialize, serde::Deserialize)]
@@ -298,6 +302,11 @@ pub fn run_part<P: Part>(p: &P, cfg: &Cfg) -> PartReport {
         rep.machinery_errors.retain(|_| true);
         rep.extra.insert("wall_cap_hit_s".into(), json!(cfg.wall_cap_s));
     }
+    let (extra, errs) = p.extra(cfg);
+    for (k, v) in extra {
+        rep.extra.insert(k, v);
+    }
+    rep.machinery_errors.extend(errs);
     rep.wall_s = t0.elapsed().as_secs_f64();
     rep
 }
